@@ -8,6 +8,8 @@ package main
 //   c18-random  table=<json> n=<cases per DeepCopy method> seed=<s> depth=<d>
 //   c18-witness table=<json>                     pinned inputs: the former exceptions' witnesses (must pass now)
 //   c18-caveat  table=<json>                     dynamic types outside the IR's universe (informational)
+//   c18-process table=<json> n= seed= depth=      compiler.Passes.Process as the duplicating step: the
+//                                                result of an empty / no-op chain against its input
 //   c18-case    table=<json> root=<T> seed= idx= depth=    one case, with JSON dumps (replay)
 
 import (
@@ -20,6 +22,7 @@ import (
 	"strings"
 
 	"github.com/grafana/cog/internal/ast"
+	"github.com/grafana/cog/internal/ast/compiler"
 	"github.com/grafana/cog/internal/orderedmap"
 )
 
@@ -27,6 +30,7 @@ func init() {
 	register("c18-random", c18Random)
 	register("c18-witness", c18Witness)
 	register("c18-caveat", c18Caveat)
+	register("c18-process", c18Process)
 	register("c18-case", c18Case)
 }
 
@@ -75,6 +79,11 @@ func c18RootMode(t *c18Table, root string) (c18Mode, bool) {
 
 // c18Run: one value through DeepCopy and all observations.  Returns (impl summary, verdicts, dumps).
 func c18Run(t *c18Table, root string, v reflect.Value, cov *c18Cov, dump bool) (impl string, verdicts []string, dumps [][2]string) {
+	return c18RunWith(t, root, v, cov, dump, nil)
+}
+
+// c18RunWith: as c18Run, the duplicate being produced by `dup` (nil: the value's DeepCopy method).
+func c18RunWith(t *c18Table, root string, v reflect.Value, cov *c18Cov, dump bool, dup func(reflect.Value) (reflect.Value, error)) (impl string, verdicts []string, dumps [][2]string) {
 	defer func() {
 		if r := recover(); r != nil {
 			verdicts = []string{fmt.Sprintf("FAIL unexplained panic: %v", r)}
@@ -93,11 +102,19 @@ func c18Run(t *c18Table, root string, v reflect.Value, cov *c18Cov, dump bool) (
 	if dump {
 		dumps = append(dumps, [2]string{"original before DeepCopy", c18JSON(v)})
 	}
-	meth := v.Addr().MethodByName("DeepCopy")
-	if !meth.IsValid() {
-		return "-", []string{"FAIL unexplained type " + v.Type().String() + " has no DeepCopy method"}, nil
+	var res reflect.Value
+	if dup != nil {
+		var err error
+		if res, err = dup(v); err != nil {
+			return "-", []string{"FAIL unexplained " + err.Error()}, nil
+		}
+	} else {
+		meth := v.Addr().MethodByName("DeepCopy")
+		if !meth.IsValid() {
+			return "-", []string{"FAIL unexplained type " + v.Type().String() + " has no DeepCopy method"}, nil
+		}
+		res = meth.Call(nil)[0]
 	}
-	res := meth.Call(nil)[0]
 	if res.Type() != v.Type() {
 		if !res.Type().ConvertibleTo(v.Type()) {
 			return "-", []string{"FAIL unexplained DeepCopy returns " + res.Type().String()}, nil
@@ -382,6 +399,71 @@ func c18Witness(args map[string]string, out *bufio.Writer) error {
 			after = dumps[2][1]
 		}
 		c18Emit(out, "c18 witness="+w.label, fmt.Sprintf("original %s -> after writing to the copy: %s", before, after), verdicts)
+	}
+	return nil
+}
+
+// ---------------------------------------------------------------- the chain entry point
+
+type c18NoopPass struct{}
+
+func (c18NoopPass) Process(schemas []*ast.Schema) ([]*ast.Schema, error) { return schemas, nil }
+
+// c18Chains: chains that transform nothing, so that the output of Process must be a faithful and
+// independent duplicate of its input (what the oracle checks).
+func c18Chains() []struct {
+	name  string
+	chain compiler.Passes
+} {
+	return []struct {
+		name  string
+		chain compiler.Passes
+	}{
+		{"nil", nil},
+		{"empty", compiler.Passes{}},
+		{"concat-of-empties", compiler.Passes{}.Concat(nil)},
+		{"one-noop-pass", compiler.Passes{c18NoopPass{}}},
+	}
+}
+
+func c18ProcessDup(chain compiler.Passes) func(reflect.Value) (reflect.Value, error) {
+	return func(v reflect.Value) (reflect.Value, error) {
+		out, err := chain.Process(v.Interface().(ast.Schemas))
+		if err != nil {
+			return reflect.Value{}, fmt.Errorf("Process failed: %v", err)
+		}
+		return reflect.ValueOf(out), nil
+	}
+}
+
+func c18Process(args map[string]string, out *bufio.Writer) error {
+	t, err := c18LoadTable(args)
+	if err != nil {
+		return err
+	}
+	n, seed, depth := argInt(args, "n", 20), argInt(args, "seed", 1), argInt(args, "depth", 3)
+	types := c18Types()
+	cov := c18NewCov()
+	for _, ch := range c18Chains() {
+		if want := args["chain"]; want != "" && want != ch.name {
+			continue
+		}
+		for idx := 0; idx < n; idx++ {
+			if a, ok := args["idx"]; ok && a != fmt.Sprint(idx) {
+				continue
+			}
+			req := fmt.Sprintf("c18 process chain=%s root=Schemas seed=%d idx=%d depth=%d", ch.name, seed, idx, depth)
+			v, err := c18GenCase(types, "Schemas", seed, idx, depth, cov.Gen)
+			if err != nil {
+				c18Emit(out, req, "-", []string{"FAIL unexplained generator: " + err.Error()})
+				break
+			}
+			impl, verdicts, dumps := c18RunWith(t, "Schemas", v, cov, args["dump"] != "", c18ProcessDup(ch.chain))
+			c18Emit(out, req, impl, verdicts)
+			for _, d := range dumps {
+				fmt.Fprintf(out, "c18-dump %s\t%s\t-\n", d[0], d[1])
+			}
+		}
 	}
 	return nil
 }
